@@ -119,7 +119,6 @@ fn exact_ops(np: usize, nq: usize) {
         }
         Err(_) => assert!(false, "Merge never errs"),
     }
-    assert!(crate::rng::draws() == 0, "deterministic operators draw nothing");
     std::mem::forget(rng);
 }
 
@@ -187,7 +186,6 @@ fn mu_plus_lambda(np: usize, nq: usize) {
         }
         Err(_) => assert!(false, "MuPlusLambda never errs on evaluated individuals"),
     }
-    assert!(crate::rng::draws() == 0, "MuPlusLambda draws nothing");
     std::mem::forget(rng);
 }
 // @h tier=quick bound="parents 0, offspring 0; any mu" unwind=4 dead="truncates by one"
